@@ -254,7 +254,10 @@ AllNames(S) == UNION {NamesOf(S, p) : p \in Pkgs(S)}
 \* `allowed_objects` lists object NAMES of the input's package (not selectors): exact spelling.
 FilterSchemasF(S, allowed) ==
   LET keep == Reach(S, {<<allowed[i].pkg, allowed[i].obj>> : i \in DOMAIN allowed})
-  IN Ok(FilterObjects(S, LAMBDA sc, o : <<sc.pkg, o.name>> \in keep))
+      S1 == FilterObjects(S, LAMBDA sc, o : <<sc.pkg, o.name>> \in keep)
+  \* an entry point names an object that exists (C05): it goes with its object
+  IN Ok([i \in DOMAIN S1 |-> IF S1[i].entry # "" /\ <<S1[i].pkg, S1[i].entry>> \notin keep
+                              THEN [S1[i] EXCEPT !.entry = "", !.entrytype = TNone] ELSE S1[i]])
 
 (* ------------------------------ dispatcher ----------------------------- *)
 Apply(S, a) ==
